@@ -18,7 +18,7 @@ import numpy as np
 PROPERTY = "C15"
 CLAIM = dict(
     text="Explicit-state model checking of the real StateVector/Orbit objects (with covariance, maneuvers and metadata "
-    "attached, and bare): breadth-first search over all histories of 18 kinds of copy / convert / assign / failing "
+    "attached, and bare): breadth-first search over all histories of 22 kinds of copy / convert / assign / read / failing "
     "operations on up to three live objects, deduplicated on the canonical state (all live objects' data plus the "
     "identity structure of their mutable parts). After every step every live object is compared with a reference "
     "model of immutable values; any sharing of mutable data between a copy and its source, any change of a receiver "
@@ -47,12 +47,20 @@ BOUNDS = {
     "roots: histories of length <= 6 (the property's bound) with the core alphabet (2 forms, 2 frames, 2 live objects; "
     "copy, copy(form), copy(frame), as_orbit/as_statevector, form=, frame=, frame=Hill (fails half-way), write by index, "
     "append / edit a maneuver, write a covariance cell); access product over all 10 forms x 2 frames; collision chains "
-    "with the full alphabet to length 3; dynamic-frame histories to length 5",
+    "with the full alphabet to length 3; dynamic-frame histories to length 5 (the length-4 search of the four secondary "
+    "roots runs without the infos read)",
 }
 ASSUMPTIONS = [
     "forms of the history alphabet: cartesian, keplerian, spherical; frames: EME2000, ITRF, MOD (+ Hill and unknown "
     "names for the failing operations); one elliptic orbit (e = 0.123, i = 52 deg), one date",
     "writes use a value derived from the model (current value rounded to 3 significant digits)",
+    "failing frame changes: unknown name, Hill (fails in the orientation lookup after the form was switched), a frame "
+    "whose centre is linked to nothing and a frame attached to an ephemeris that does not cover the date (both fail in "
+    "the translation part only, orientation ITRF resolvable), by assignment and through copy(frame=)",
+    "derived quantities (`infos`: r, v, a, energy) are read by an explicit operation; they are compared with the model "
+    "of THAT object, and must belong to it, for the target of a read and in every state for every object that carries a "
+    "stored helper (a helper built on the spot cannot be stale; its formulas are property C01's business); the check's "
+    "own reads leave no trace in the objects",
     "a state in which an object disagrees with its model is reported and not expanded",
     "the covariance expressed in the state's frame follows the state's frame change (clause of C14) — part of the model",
     "dynamic frames: the point a state denotes is A x + b with (A, b) the affine map of the ORIGINAL frame definition to "
@@ -65,7 +73,7 @@ ASSUMPTIONS = [
 ]
 NOT_COVERED = (
     "other forms/frames inside histories, more than three live objects, histories beyond the stated lengths, "
-    "numpy views/slices of a state vector, `infos`, propagation; what re-registering a station / orbit-frame name does to "
+    "numpy views/slices of a state vector, propagation; what re-registering a station / orbit-frame name does to "
     "existing objects of that frame; whether as_orbit()/as_statevector() results may share "
     "containers with the receiver (allowed here, reported as a note; set STRICT_CONVERSION_ALIASING to flag it)"
 )
@@ -89,7 +97,9 @@ FORMS_FULL = ["cartesian", "keplerian", "spherical"]
 FRAMES_FULL = ["EME2000", "ITRF", "MOD"]
 FORMS_RED = ["cartesian", "keplerian"]
 FRAMES_RED = ["EME2000", "ITRF"]
-RESERVED = {"date", "form", "frame", "propagator", "cov", "maneuvers"}
+RESERVED = {"date", "form", "frame", "propagator", "cov", "maneuvers", "infos"}
+BAD_CENTER = "C15NoLink"  # orientation ITRF, centre not linked to anything: the translation part fails
+BAD_EPHEM = "C15Probe"  # attached to a one hour ephemeris of 2020 given in ITRF: its centre is undefined at the epochs used here
 W_IDX = 0
 W_NAME = {"cartesian": 1, "keplerian": 2, "spherical": 3}
 W_ALIAS = {"cartesian": ("z_dot", 5), "keplerian": ("raan", 3), "spherical": ("theta", 1)}
@@ -111,6 +121,9 @@ ROOTS = {
 # a history has <= 6 operations of <= 3 conversions each, model and object each: <= 4e-13.  TOL = 2e-11 leaves x50.
 TOL_COORD = 2e-11
 TOL_COV = 2e-11
+# r, |v|, a = -mu/2E, E from the object's current state: the library goes through its keplerian / spherical conversions
+# (a few dozen operations, cancellation in E = v^2/2 - mu/r bounded by |v^2/2| / |E| <= 3 for these orbits)
+TOL_INFOS = 1e-11
 
 _W = {}
 
@@ -127,6 +140,22 @@ def setup(config):
     import logging
 
     logging.getLogger("beyond.frames.frames").setLevel(logging.ERROR)
+    _make_bad_frames()
+
+
+def _make_bad_frames():
+    """Targets of frame changes that fail in the TRANSLATION part only (orientation resolvable, centre not)."""
+    from beyond.frames import frames, orient, center
+    from beyond.dates import Date, timedelta
+    from beyond.orbits import Orbit
+
+    if BAD_CENTER not in frames.dynamic:
+        frames.Frame(BAD_CENTER, orient.ITRF, center.Center(BAD_CENTER), exists_warning=False)
+    if BAD_EPHEM not in frames.dynamic:
+        t0 = Date(2020, 5, 17, 12)
+        ref = Orbit([7.0e6, 0.01, 0.9, 1.0, 0.5, 0.3], t0, "keplerian", "EME2000", "Kepler")
+        eph = ref.ephem(start=t0, stop=timedelta(hours=1), step=timedelta(minutes=1))
+        frames.orbit2frame(BAD_EPHEM, eph.copy(frame="ITRF"), exists_warning=False)
 
 
 def _date():
@@ -265,17 +294,22 @@ def build_root(rootname):
 
 
 PRODUCERS = ("copy", "copy_form", "copy_frame", "copy_same", "pickle", "conv")
-FAILING = ("bad_form", "bad_frame", "hill")
+FAILING = ("bad_form", "bad_frame", "hill", "bad_center", "bad_ephem", "copy_bad_center")
 IN_PLACE = ("form", "frame", "w_idx", "w_name", "w_alias", "meta", "man_append", "man_edit", "cov_cell")
 
 
 LEVELS = {
     # name: (forms, frames, max live objects, operation kinds or None = all)
     "full": (FORMS_FULL, FRAMES_FULL, 3, None),
+    # the full alphabet without the read of derived quantities (which doubles the hidden state of every object)
+    "full-noinfos": (FORMS_FULL, FRAMES_FULL, 3, {"copy", "copy_form", "copy_frame", "copy_same", "pickle", "conv", "form",
+                                                   "frame", "bad_form", "bad_frame", "hill", "bad_center", "bad_ephem",
+                                                   "copy_bad_center", "w_idx", "w_name", "w_alias", "meta", "man_append",
+                                                   "man_edit", "cov_cell"}),
     "reduced": (FORMS_RED, FRAMES_RED, 2, {"copy", "copy_form", "copy_frame", "pickle", "conv", "form", "frame", "bad_form",
-                                            "bad_frame", "hill", "w_idx", "w_name", "w_alias", "meta", "man_append",
+                                            "bad_frame", "hill", "bad_center", "bad_ephem", "copy_bad_center", "read_infos", "w_idx", "w_name", "w_alias", "meta", "man_append",
                                             "man_edit", "cov_cell"}),
-    "core": (FORMS_RED, FRAMES_RED, 2, {"copy", "copy_form", "copy_frame", "conv", "form", "frame", "hill", "w_idx",
+    "core": (FORMS_RED, FRAMES_RED, 2, {"copy", "copy_form", "copy_frame", "conv", "form", "frame", "hill", "bad_center", "read_infos", "w_idx",
                                          "man_append", "man_edit", "cov_cell"}),
 }
 
@@ -295,7 +329,8 @@ def alphabet(w, level):
             ops.append(["conv", i])
         ops += [["form", i, f] for f in forms]
         ops += [["frame", i, F] for F in frames]
-        ops += [["bad_form", i], ["bad_frame", i], ["hill", i]]
+        ops += [["bad_form", i], ["bad_frame", i], ["hill", i], ["bad_center", i], ["bad_ephem", i], ["copy_bad_center", i]]
+        ops.append(["read_infos", i])
         ops += [["w_idx", i], ["w_name", i], ["w_alias", i], ["meta", i]]
         if len(M["mans"]) < 3:
             ops.append(["man_append", i])
@@ -333,6 +368,8 @@ def model_step(w, op):
         ms[i] = S.set_frame(M, op[2], fmap, mu)
         if ms[i]["cov"] != M["cov"]:
             _propagate(w, ms, i, "cov", w.share_cov)
+    elif k == "read_infos":
+        pass  # reading derived quantities changes nothing
     elif k in FAILING:
         return ms, None, True
     elif k == "w_idx":
@@ -397,6 +434,15 @@ def real_step(w, op):
         x.frame = "NoSuchFrame"
     elif k == "hill":
         x.frame = "Hill"
+    elif k == "bad_center":
+        x.frame = BAD_CENTER
+    elif k == "bad_ephem":
+        x.frame = BAD_EPHEM
+    elif k == "copy_bad_center":
+        x.copy(frame=BAD_CENTER)
+    elif k == "read_infos":
+        inf = x.infos
+        inf.kep, inf.sphe, inf.r, inf.energy
     elif k == "w_idx":
         x[W_IDX] = S.sig3(M["coords"][W_IDX])
     elif k == "w_name":
@@ -453,7 +499,7 @@ def uncommit_last(w):
 # observation and comparison
 
 
-def observe(x):
+def observe(x, force_infos=False):
     o = {}
     o["cls"] = type(x).__name__
     o["form"] = x.form.name
@@ -473,6 +519,22 @@ def observe(x):
         except AttributeError as e:
             o["cov"] = ("<unreadable: %r>" % (e,), ())
     o["prop"] = type(d["propagator"]).__name__ if "propagator" in d else None
+    # derived quantities, whenever the object carries a stored helper (only then can they be stale or belong to another
+    # object; a helper built on the spot is property C01's business); the read must not leave a trace
+    had, prev = "infos" in d, d.get("infos")
+    if not had and not force_infos:
+        return o
+    try:
+        inf = x.infos
+        o["infos"] = (float(inf.r), float(inf.v), float(inf.kep.a), float(inf.energy))
+        o["infos_bound"] = inf.orb is x
+    except Exception as e:
+        o["infos"] = repr(e)
+        o["infos_bound"] = None
+    if had:
+        d["infos"] = prev
+    else:
+        d.pop("infos", None)
     return o
 
 
@@ -499,6 +561,19 @@ def compare(o, M):
             rn, vn = math.sqrt(ce[:3] @ ce[:3]), math.sqrt(ce[3:] @ ce[3:])
             err = max(float(np.max(np.abs(ce[:3] - co[:3])) / rn), float(np.max(np.abs(ce[3:] - co[3:])) / vn))
             out.append(("coords?", M["coords"], o["coords"], err))
+    if o["form"] == M["form"] and o["frame"] == M["frame"] and "infos" in o:
+        if o["infos_bound"] is not True:
+            out.append(("infos-binding", "infos describes the object it is read from", o["infos_bound"] if o["infos_bound"] is not None else o["infos"], None))
+        elif isinstance(o["infos"], str):
+            out.append(("infos-values", "values", o["infos"], None))
+        else:
+            c6 = np.array(S.to_cart(M["coords"], M["form"], mu))
+            r = math.sqrt(c6[:3] @ c6[:3])
+            v2 = float(c6[3:] @ c6[3:])
+            en = v2 / 2 - mu / r
+            exp = (r, math.sqrt(v2), -mu / (2 * en), en)
+            err = max(abs(a - b) / abs(b) for a, b in zip(o["infos"], exp))
+            out.append(("infos-values?", exp, o["infos"], err))
     if (o["cov"] is None) != (M["cov"] is None):
         out.append(("cov-presence", M["cov"], o["cov"], None))
     elif o["cov"] is not None:
@@ -590,6 +665,7 @@ def alias_structure(w):
                 n(d), n(x.base), x.base is None, n(ml),
                 tuple((n(m), n(m._dv)) for m in (ml or [])),
                 ch, n(d.get("propagator")), d["frame"] is _registry_frame(d["frame"]),
+                n(d.get("infos")), None if d.get("infos") is None else d["infos"].orb is x,
             )
         )
     return tuple(out)
@@ -661,11 +737,12 @@ def step(w, op, case, t, checking=True):
                case, "unchanged coordinates / covariance", "changed", where)
         ok = False
     for j in range(n):
-        o = observe(w.objs[j])
+        o = observe(w.objs[j], force_infos=(k == "read_infos" and j == i))
         for fld, exp, obs, mag in compare(o, w.models[j]):
             if fld.endswith("?"):
-                name = "coordinates vs model (scaled)" if fld == "coords?" else "covariance vs model (scaled)"
-                tol = TOL_COORD if fld == "coords?" else TOL_COV
+                name = {"coords?": "coordinates vs model (scaled)", "cov-values?": "covariance vs model (scaled)",
+                        "infos-values?": "infos r, v, a, energy vs model (relative)"}[fld]
+                tol = {"coords?": TOL_COORD, "cov-values?": TOL_COV, "infos-values?": TOL_INFOS}[fld]
                 if mag <= tol:
                     t.margin(name, mag, tol, case)
                     continue
@@ -854,7 +931,9 @@ def check_access_case(case, t):
     # failing assignments are atomic in every form
     for what, setter in (("bad_form", lambda o: setattr(o, "form", "no_such_form")),
                          ("bad_frame", lambda o: setattr(o, "frame", "NoSuchFrame")),
-                         ("hill", lambda o: setattr(o, "frame", "Hill"))):
+                         ("hill", lambda o: setattr(o, "frame", "Hill")),
+                         ("bad_center", lambda o: setattr(o, "frame", BAD_CENTER)),
+                         ("bad_ephem", lambda o: setattr(o, "frame", BAD_EPHEM))):
         x = fresh()
         before = np.array(x, dtype=float)
         meta_before = observe(x)
@@ -867,7 +946,7 @@ def check_access_case(case, t):
         t.trans()
         t.ev(("fail", rootname, formname, frame, what))
         o = observe(x)
-        for f in ("cls", "form", "frame", "meta", "mans", "prop", "date"):
+        for f in ("cls", "form", "frame", "meta", "mans", "prop", "date", "cov"):
             if o[f] != meta_before[f]:
                 t.fail(f"{what}/not-atomic/{f}", "a form or frame change that fails leaves the object in its previous form/frame/values",
                        case, meta_before[f], o[f], where)
@@ -1298,8 +1377,9 @@ def units(tier, seed):
             for s in range(11):
                 u.append((cfg, dict(part="hist", root=r, depth=6, level="core", first=[s, 11])))
         for r in ROOTS:
+            lvl = "full" if r in ("sv_full", "orb_full") else "full-noinfos"
             for s in range(split):
-                u.append((cfg, dict(part="hist", root=r, depth=4, level="full", first=[s, split])))
+                u.append((cfg, dict(part="hist", root=r, depth=4, level=lvl, first=[s, split])))
     # collision chains: roots that differ in exactly one coordinate (epoch / orbit / form of the root), explored one
     # after the other in ONE process, in both orders: anything the library keeps between calls that is keyed without
     # that coordinate makes the later root disagree with its own model
